@@ -403,16 +403,20 @@ def _orbit(q):
 def check_four(n, q):
     from iodata.utils import set_four_index_element
 
-    a = np.arange(n**4, dtype=float).reshape(n, n, n, n) + 0.5
-    before = a.copy()
-    set_four_index_element(a, *q, -1.0)
     want = _orbit(q)
-    got = {tuple(int(x) for x in p) for p in np.argwhere(a != before)}
-    if got != want:
-        miss, extra = sorted(want - got), sorted(got - want)
-        return ("four-positions", f"set_four_index_element(n={n}, {q}): missing {miss[:4]} extra {extra[:4]}")
-    if any(a[p] != -1.0 for p in want):
-        return ("four-value", "a written position does not hold the value")
+    # several values incl. exactly 0.0 and a value equal to nothing in the pre-filled array:
+    # the assignment must be unconditional
+    for value in (-1.0, 0.0, 7.25):
+        a = np.arange(n**4, dtype=float).reshape(n, n, n, n) + 0.5
+        before = a.copy()
+        set_four_index_element(a, *q, value)
+        got = {tuple(int(x) for x in p) for p in np.argwhere(a != before)}
+        if got != want:
+            miss, extra = sorted(want - got), sorted(got - want)
+            return ("four-positions",
+                    f"set_four_index_element(n={n}, {q}, value={value}): missing {miss[:4]} extra {extra[:4]}")
+        if any(a[p] != value for p in want):
+            return ("four-value", "a written position does not hold the value")
     return None
 
 
